@@ -40,7 +40,13 @@ NODE_MENUS = (
     ("HNodeNo", "HNodeBag"),
     ("HNodeInst",),
     ("HNodeInst", "HNode"),
+    ("HNodeUnhash",),
+    ("HNodeUnhash", "HNode"),
+    ("HMixProxy",),
+    ("HMixProxy", "HMix", "HSym"),
 )
+# only where navigation attributes are not the subject (the class re-uses the name `path` for itself)
+NODE_MENUS_STRUCT_ONLY = (("HMixPath",), ("HMixPath", "HMix"))
 LIGHT_MENUS = (
     ("HLight",),
     ("HLightDict",),
@@ -112,13 +118,16 @@ def gen_cfg(rng, prop, tier, allow_big=True):
     if prop == "C20":
         family = "node"
         menu = rng.choice((("HNode", "HSym"), ("HNode", "HAny", "HSym", "HSymMix"), ("HAny", "HSym"), ("HNode", "HSym", "HSymProp"), ("HNodeRO", "HSym"), ("HNodeRO", "HNode", "HSym"),
-                           ("PNode", "PSym"), ("PAny", "PNode", "PSym")))  # (the last two: the library's classes exactly as shipped)
+                           ("PNode", "PSym"), ("PAny", "PNode", "PSym"),  # (these two: the library's classes exactly as shipped)
+                           ("HNodeNo", "HSym"), ("HNodeBag", "HNode", "HSym"), ("HNodeUnhash", "HSym")))
     elif prop == "C18":
         family = "node"
         menu = ("HMix",)
     else:
         family = "light" if rng.random() < 0.35 else "node"
         menu = rng.choice(LIGHT_MENUS if family == "light" else NODE_MENUS)
+        if family == "node" and prop in ("C01", "C02", "C03", "C16") and allow_big and rng.random() < 0.04:
+            menu = rng.choice(NODE_MENUS_STRUCT_ONLY)
         if prop == "C02" and family == "node" and rng.random() < 0.15:
             # the library's classes exactly as shipped (no hook mixin in the MRO)
             menu = rng.choice((("PNode",), ("PAny",), ("PNode", "PSym"), ("PNode", "PAny")))
@@ -909,6 +918,16 @@ def run(cfg, ops=None, rng=None, extra=None, pre_gen=None, handle=None):
                        "; ".join(d for _, d in bad[:3])),
                 )
             if prop == "C20":
+                # only the nodes the call names are notified: a link's move is none of its target's business
+                named = {op.get("n")} | set(pre[op["n"]][1] if isinstance(op.get("n"), int) and op["n"] < len(pre) else ())
+                named |= set(x for x in (op.get("xs") if isinstance(op.get("xs"), list) else ()) if isinstance(x, int))
+                if newidx is not None:
+                    named.add(newidx)
+                if not world.acted:
+                    for ev in log:
+                        if ev[1] not in named:
+                            raise Violation(prop, "hooks", step, "hooks:foreign:" + ev[0],
+                                            "step %d %s: %s was called on node %r, which the call does not name (hook log %r)" % (step, op, ev[0], ev[1], [e[:3] for e in log]))
                 c02_judge(step, op, exp, status, excname, exc, fired, post, ideal, prop)
             if post != ideal:
                 # continue from what is really there (only C02/C03 judge the difference)
